@@ -1,5 +1,5 @@
 """C18 — a monitor sees everything that matches and can affect nothing."""
-import random, json
+import random, json, re
 from ..common import *
 from .. import check, buscheck, busdiff, busgen
 from ..buscheck import fld, hexname, Tracker
@@ -20,6 +20,7 @@ def is_become_monitor(sent):
 def oracle(tr):
     bad = []
     monitors = {}       # cid -> True when its filter is match-all (empty rule list)
+    selective = {}      # cid -> [(key, unique name)] for monitors whose filter only names unique names
     names = {}
     for i, (per, closed) in enumerate(tr.steps):
         op = tr.ops[i]
@@ -58,15 +59,36 @@ def oracle(tr):
                 k = len([l for l in mine if fld(l, "ser") == fld(sent, "ser") and hexname(fld(l, "sender")) == names[actor] and fld(l, "t") == fld(sent, "t")])
                 if k != 1:
                     bad.append((None, "step %d: the processed message (serial %s from %s) was shown %d times to monitor %d" % (i, fld(sent, "ser"), names[actor], k, m)))
+        # monitors whose filter only names unique names (destination=':1.N' / sender=':1.N' rules): the processed message must be
+        # shown once when it is addressed to, or comes from, such a name - whether or not that connection still exists
+        if sent and actor in names and actor not in monitors and fld(sent, "t") in ("1", "2", "3", "4") and \
+                not (fld(sent, "dest") == "-" and hexname(fld(sent, "iface")) == "org.freedesktop.DBus.Peer") and (fld(sent, "dest") != "-" or fld(sent, "t") == "4"):
+            for m, rules in selective.items():
+                if m in closed or m not in monitors or (op[0] == "close" and op[1] == m):
+                    continue
+                d = hexname(fld(sent, "dest"))
+                hit = any((k == "destination" and d == v) or (k == "sender" and names[actor] == v) for k, v in rules)
+                if hit:
+                    k = len([l for l in per.get(m, []) if fld(l, "ser") == fld(sent, "ser") and hexname(fld(l, "sender")) == names[actor] and fld(l, "t") == fld(sent, "t")])
+                    if k != 1:
+                        bad.append((None, "step %d: the processed message (serial %s from %s to %s) matches monitor %d's filter %s and was shown to it %d times" %
+                                    (i, fld(sent, "ser"), names[actor], d, m, rules, k)))
         # becoming a monitor
         if is_become_monitor(sent) and actor not in monitors:
             acks = [l for l in per.get(actor, []) if fld(l, "t") == "2" and fld(l, "rs") == fld(sent, "ser") and hexname(fld(l, "sender")) == BUS]
             if acks:
-                monitors[actor] = (fld(sent, "body") or "").startswith("A[s|]")
+                body = fld(sent, "body") or ""
+                monitors[actor] = body.startswith("A[s|]")
+                mm = re.match(r"^A\[s\|([^\]]*)\],u:0$", body)
+                if mm and mm.group(1):
+                    texts = [bytes.fromhex(x[2:]).decode("latin1") if x != "s:-" else "" for x in mm.group(1).split(",")]
+                    parsed = [re.match(r"^(destination|sender)='(:1\.\d+)'$", t) for t in texts]
+                    if all(parsed):
+                        selective[actor] = [(p_.group(1), p_.group(2)) for p_ in parsed]
         for c in closed:
-            monitors.pop(c, None); names.pop(c, None)
+            monitors.pop(c, None); names.pop(c, None); selective.pop(c, None)
         if op[0] == "close":
-            monitors.pop(op[1], None); names.pop(op[1], None)
+            monitors.pop(op[1], None); names.pop(op[1], None); selective.pop(op[1], None)
     return bad
 
 
@@ -130,6 +152,7 @@ def run(ctx):
                            ("default", False, {"receive_interface": "a.b.c", "receive_type": "signal"})])
     buscheck.run_histories(ctx, n // 2, 70, oracle, gen_kw={"weights": dict(W, query=8, request=14), "max_conns": 5}, policy=deny,
                            findings=findings, seed_salt=42, label="monitors-with-denials")
+    buscheck.run_histories(ctx, 0, 0, oracle, findings=findings, seed_salt=43, label="vanished-peer-filters", scripts=vanished_peer_scripts())
     # non-interference on the implementation itself: the same history with the monitor gone instead
     from concurrent.futures import ProcessPoolExecutor
     k = 30 if ctx.quick() else 500
@@ -149,6 +172,31 @@ def run(ctx):
                     {"kind": "bus-history", "label": "interference", "seed": r["seed"], "policy": busdiff.SESSION.rules, "limits": None,
                      "extra": "", "ops": r["ops"], "diffs": r["diffs"]}, True)
     ctx.coverage.setdefault("histories", {})["interference"] = {"histories": len(good), "with_monitors": len(withm)}
+
+
+def vanished_peer_scripts():
+    """a monitor filtering on a peer's unique name keeps seeing traffic addressed to (or claiming to come from) that name after
+    the peer has gone: the filter is the monitor's, not the peer's"""
+    from ..bus import method_call, signal_msg, BUS_PATH
+    hello = lambda: method_call(1, BUS, BUS_PATH, BUS, "Hello").marshal()
+    def become(rules):
+        return method_call(2, BUS, BUS_PATH, "org.freedesktop.DBus.Monitoring", "BecomeMonitor", "asu", [rules, 0]).marshal()
+    base = [("connect", 0, 0, False), ("send", 0, hello())] + [x for c in (1, 2, 3) for x in (("connect", c, 0, False), ("send", c, hello()))]
+    out = []
+    for rules in ([b"destination=':1.2'"], [b"sender=':1.2'"], [b"destination=':1.2'", b"destination=':1.3'"]):
+        for peer_has_rule in (False, True):
+            ops = list(base)
+            if peer_has_rule:
+                ops.append(("send", 2, method_call(5, BUS, BUS_PATH, BUS, "AddMatch", "s", [b"type='signal',member='N'"]).marshal()))
+            ops += [("send", 1, become(rules)),
+                    ("send", 3, method_call(5, ":1.2", "/a", "a.b", "M", "s", [b"before"]).marshal()),
+                    ("send", 2, signal_msg(6, "/a", "a.b", "M", "s", [b"from the peer"]).marshal()),
+                    ("close", 2),
+                    ("send", 3, method_call(6, ":1.2", "/a", "a.b", "M", "s", [b"after"]).marshal()),
+                    ("send", 3, signal_msg(7, "/a", "a.b", "M", "s", [b"x"], dest=":1.2").marshal()),
+                    ("send", 3, method_call(8, ":1.3", "/a", "a.b", "M", "s", [b"self"]).marshal())]
+            out.append(ops)
+    return out
 
 
 def replay(path):
